@@ -12,13 +12,20 @@ from pyvc.sym import Sym
 from .common import And, Or, Not
 
 LEVEL = 'other'
-EXPLANATION = ("nlist.pyx bins atoms with numpy.digitize/unique, grows typed memoryviews and inserts into sorted rows under boundscheck(False); its meaning depends on "
-               "shape-changing NumPy calls that the VC generator does not model, so the exactness clause (listed <=> periodic distance below the cutoff, with the C02 distance "
-               "as oracle), the structural invariants (sorted, duplicate-free, symmetric, no self entry, coordination = length), independence of the storage parameters and the "
-               "file round trip are checked by a labelled BOUNDED run-time contract over a stated family. The NeighborList accessor contracts (coord, __getitem__, __len__ are "
-               "views of the row store) are proved on a symbolic-free but arbitrary row store by execution of the real class.")
-ASSUMPTIONS = ["oracle: O(N^2) periodic distances from dmag (contract proved in C02)", "bounded family stated in the group rule; nothing about nlist.pyx is counted as proved"]
-UNCOVERED = ["memory safety of nlist.pyx's unchecked subscripts (not modelled)", "configurations outside the family"]
+EXPLANATION = ("nlist.pyx bins atoms with numpy.digitize/unique and grows typed memoryviews; the whole kernel depends on shape-changing NumPy calls outside the modelled fragment, so "
+               "the end-to-end exactness clause (listed <=> periodic distance below the cutoff, with the C02 distance as oracle), independence of the storage parameters and the file "
+               "round trip are a labelled BOUNDED run-time contract over a stated family. Proved are the kernel's three inner blocks, extracted mechanically from the .pyx text on every "
+               "run (pyvc/extract.py: located by AST shape, compiled unchanged, executed from an arbitrary symbolic state): (1) the pair-recording block keeps the table symmetric, "
+               "rows strictly increasing and duplicate-free, counts exact, all other entries, and re-allocates with all contents when capacity is exceeded (an out-of-bounds store "
+               "raises in the facade, so the unchecked subscripts of this block are memory-safe under the stated precondition); (2) the neighbouring-bin loop nest reads exactly the "
+               "13 lexicographically negative offsets inside the grid, so every adjacent bin pair is visited from exactly one end; (3) the candidate loop requests the separation of "
+               "exactly the pairs (own atom, later atom of own + visited bins) and records a pair iff the squared separation returned by dmag2_c (C02 contract) is below cutoff^2; "
+               "plus the binning lemma (closer than the bin size => same or adjacent bin) with bin size = cutoff. The NeighborList accessor contracts are proved on the real class. "
+               "Not proved: that ghost images and np.digitize place every atom in the bin the lemma speaks of (bounded only), hence level 'other'.")
+ASSUMPTIONS = ["oracle of the bounded family: O(N^2) periodic distances from dmag (contract proved in C02)",
+               "block proofs: table rows of capacity 2 with counts 0..2 and growth steps 1, 2 (ids symbolic integers; int64 wrap-around not modelled); grids up to 3x3x3 for the stencil",
+               "np.digitize / np.arange / np.unique semantics (binning of atoms and ghosts) are not modelled: composition of the blocks into end-to-end completeness is bounded only"]
+UNCOVERED = ["ghost-image generation and binning (np.digitize) -- bounded only", "bin-table growth loop (maxatomsperbin)", "configurations outside the bounded family"]
 
 NLF = 'atomman/core/nlist.pyx'
 NLPY = 'atomman/core/NeighborList.py'
@@ -159,3 +166,265 @@ def exactness(tier, seed):
         shutil.rmtree(tmpd, ignore_errors=True)
     files = {rel: hashlib.sha256(open(os.path.join(REPO, rel), 'rb').read()).hexdigest() for rel in (NLF, NLPY, DMF)}
     return {'family': 'neighbour lists vs O(N^2) oracle', 'evaluations': evals, 'distinct_nontrivial': nontriv, 'rule': 'see group rule', 'samples': samples, 'failures': fails[:15], 'files': files}
+
+
+# ----------------------------------------------------------------------------
+# blocks of the Cython kernel, extracted mechanically on every run (pyvc/extract.py) and executed from an arbitrary symbolic state
+
+import ast as _ast
+from pyvc.extract import extract as _extract
+
+
+def _is_insert_if(n):
+    return (isinstance(n, _ast.If) and isinstance(n.test, _ast.Compare) and isinstance(n.test.left, _ast.Name) and n.test.left.id == 'uindex'
+            and len(n.test.ops) == 1 and isinstance(n.test.ops[0], _ast.NotEq) and getattr(n.test.comparators[0], 'id', None) == 'vindex')
+
+
+def _is_stencil_for(n):
+    return isinstance(n, _ast.For) and isinstance(n.target, _ast.Name) and n.target.id == 'dz'
+
+
+def _is_pair_for(n):
+    return isinstance(n, _ast.For) and isinstance(n.target, _ast.Name) and n.target.id == 'u'
+
+
+def _replay_nlist(stem, vals):
+    """native replay: the structural invariants and exactness on a small family (rebuilt extension when nlist.pyx differs from the pinned text)"""
+    from pyvc.native import atomman
+    import numpy as np
+    am = atomman()
+    msgs = []
+    try:
+        rng = np.random.RandomState(5)
+        for pbc in ((True, True, True), (True, False, True), (False, False, False)):
+            box = am.Box(vects=[[6.0, 0, 0], [1.5, 5.5, 0], [-0.8, 1.1, 6.5]])
+            pos = rng.uniform(0, 1, (60, 3)).dot(box.vects)
+            s = am.System(atoms=am.Atoms(pos=pos), box=box, pbc=pbc)
+            for init, delta in ((20, 10), (1, 1), (2, 3)):
+                nl = am.NeighborList(system=s, cutoff=2.7, initialsize=init, deltasize=delta)
+                want = oracle(am, np, s, 2.7)
+                for i in range(s.natoms):
+                    row = list(nl[i])
+                    if row != sorted(set(row)) or i in row:
+                        msgs.append('row %d not sorted/duplicate-free/self-free: %r' % (i, row))
+                    if row != want[i]:
+                        msgs.append('row %d is %r, brute force gives %r (pbc %r, initialsize %d, deltasize %d)' % (i, row, want[i], pbc, init, delta))
+                if msgs:
+                    break
+    except Exception as e:
+        msgs.append('raised %s: %s' % (type(e).__name__, e))
+    return (len(msgs) > 0, '; '.join(msgs[:3]) if msgs else 'float replay of the neighbour-list contracts found no disagreement')
+
+
+def _table(E, name, natoms, cap, counts):
+    """neighbour table as the kernel keeps it: column 0 = count (concrete), then that many symbolic integer ids; the rest uninitialised storage (symbolic garbage)"""
+    t = _np.empty((natoms, cap + 1), dtype=object)
+    ids = {}
+    for r in range(natoms):
+        t[r, 0] = counts[r]
+        for j in range(1, cap + 1):
+            t[r, j] = E.int('%s_%d_%d' % (name, r, j))
+        ids[r] = [t[r, j] for j in range(1, counts[r] + 1)]
+    return t.view(snp.SymArray), ids
+
+
+class _ObjAlloc(object):
+    """the facade, except that np.empty of an integer dtype allocates symbolic-capable storage (ids are mathematical integers; int64 wrap-around is not modelled)"""
+    def __getattr__(self, k):
+        return getattr(snp, k)
+
+    def empty(self, shape, dtype=None, **kw):
+        return snp.empty(shape, dtype=object)
+
+
+def _insertion_group(order, cu, cv, delta):
+    u0, v0 = (0, 2) if order == 'uv' else (2, 0)
+
+    @group('nlist.insertion_block[%s,cu=%d,cv=%d,delta=%d]' % (order, cu, cv, delta), files=[NLF], functions=['nlist.nlist (block: insertion of one pair)'],
+           clause='the block of nlist.pyx that records one pair (u,v), executed from an arbitrary symmetric table state with strictly increasing rows of symbolic ids (counts 0..2, '
+                  'capacity 2, growth step 1 and 2): if v is already listed nothing changes; otherwise both counts grow by one, both rows stay strictly increasing, row u gains '
+                  'exactly v and row v exactly u, every other entry and every other row is kept, and when the capacity is exceeded the table is re-allocated with the documented '
+                  'growth and all contents preserved', replay=_replay_nlist, timeout_ms=20000)
+    def h_(E, L):
+        block, info = _extract(L, NLF, 'nlist', _is_insert_if)
+        E.prove('insertion.block_found[%s,%d,%d,%d]' % (order, cu, cv, delta), info['last_line'] > info['first_line'] and 'neighbors' in info['free_variables'])
+        first = True
+        natoms, cap = 3, 2
+        for _once in (0,):
+            tab, ids = _table(E, 'n%d%d%d' % (cu, cv, delta), natoms, cap, {u0: cu, v0: cv, 1: 1})
+            tag = 'insertion[%s][cu=%d,cv=%d,delta=%d]' % (order, cu, cv, delta)
+            pre = []
+            for r in (u0, v0):
+                row = ids[r]
+                for a_, b_ in zip(row, row[1:]):
+                    pre.append(a_ < b_)
+                for a_ in row:
+                    pre.append(a_ != r)           # no self entries
+            v_in_u = Or(*[x == v0 for x in ids[u0]]) if ids[u0] else False
+            u_in_v = Or(*[x == u0 for x in ids[v0]]) if ids[v0] else False
+            if ids[u0] or ids[v0]:
+                pre.append(And(Or(Not(v_in_u), u_in_v), Or(Not(u_in_v), v_in_u)) if (ids[u0] and ids[v0]) else (Not(v_in_u) if ids[u0] else Not(u_in_v)))
+            for c_ in pre:
+                E.assume(c_)
+            if first:
+                E.canary('insertion.canary[%s,%d,%d,%d]' % (order, cu, cv, delta), tab[1, 1] == 0)
+                first = False
+            before = tab.copy()
+            mod = L.load(NLF)
+            real_np = mod.np
+            mod.np = _ObjAlloc()
+            try:
+                out = block(dict(neighbors=tab, uindex=u0, vindex=v0, maxneighbors=cap, deltasize=delta, natoms=natoms))
+            finally:
+                mod.np = real_np
+            new_tab = out['neighbors']
+            dup = v_in_u
+            grew = (cu + 1 > cap) or (cv + 1 > cap)
+            ncu, ncv = int(new_tab[u0, 0]), int(new_tab[v0, 0])
+            was_new = bool(out['new'])
+            # which path are we on?  `new` False <=> v was listed
+            E.prove(tag + '.duplicate_detected_iff_listed', dup if not was_new else Not(dup) if not isinstance(dup, bool) else (dup is False))
+            if not was_new:
+                E.prove(tag + '.unchanged_when_listed', new_tab is tab and all((a_ is b_) or (isinstance(a_, Sym) and isinstance(b_, Sym) and a_.t is b_.t) or
+                                                                              (not isinstance(a_, Sym) and not isinstance(b_, Sym) and a_ == b_)
+                                                                              for a_, b_ in zip(new_tab.ravel(), before.ravel())))
+                continue
+            E.prove(tag + '.counts', ncu == cu + 1 and ncv == cv + 1)
+            E.prove(tag + '.capacity', (new_tab.shape == (natoms, cap + delta + 1) and out['maxneighbors'] == cap + delta) if grew
+                    else (new_tab is tab and out['maxneighbors'] == cap))
+            for r, other, cnt in ((u0, v0, ncu), (v0, u0, ncv)):
+                row = [new_tab[r, j] for j in range(1, cnt + 1)]
+                for k_, (a_, b_) in enumerate(zip(row, row[1:])):
+                    E.prove(tag + '.row%d_strictly_increasing[%d]' % (r, k_), a_ < b_)
+                E.prove(tag + '.row%d_gains_partner' % r, Or(*[x == other for x in row]))
+                for k_, old in enumerate(ids[r]):
+                    E.prove(tag + '.row%d_keeps_entry[%d]' % (r, k_), Or(*[x == old for x in row]))
+                # nothing else appears: every new entry is the partner or an old entry
+                for k_, x in enumerate(row):
+                    E.prove(tag + '.row%d_nothing_else[%d]' % (r, k_), Or(x == other, *[x == old for old in ids[r]]))
+            E.prove(tag + '.other_row_kept', int(new_tab[1, 0]) == 1 and new_tab[1, 1] == before[1, 1])
+    return h_
+
+
+for _o, _cu, _cv, _d in itertools.product(('uv', 'vu'), range(3), range(3), (1, 2)):
+    _insertion_group(_o, _cu, _cv, _d)
+
+
+class _BinRecorder(object):
+    """stands for the 4-D bin table: bin (i,j,k) holds exactly one atom whose id encodes the bin; records every access"""
+    def __init__(self, n):
+        self.n = n
+        self.log = []
+
+    def __getitem__(self, key):
+        i, j, k, l = key
+        self.log.append((int(i), int(j), int(k), int(l)))
+        if not (0 <= i < self.n and 0 <= j < self.n and 0 <= k < self.n):
+            raise IndexError('bin index out of range: %r' % (key,))
+        return 1 if l == 0 else 100 * int(i) + 10 * int(j) + int(k)
+
+
+@group('nlist.stencil_block', files=[NLF], functions=['nlist.nlist (block: neighbouring-bin loop nest)'],
+       clause='the loop nest over neighbouring bins, executed for every bin position of a 3x3x3 and a 1x1x1..2x2x2 grid: it reads exactly the 13 bins whose offset is lexicographically '
+              'negative (z, then y, then x) and inside the grid, never an index outside the grid, and appends their atoms after the bin\'s own atoms; hence every unordered pair of '
+              'distinct adjacent bins is visited from exactly one of its two ends', replay=_replay_nlist)
+def stencil_block(E, L):
+    block, info = _extract(L, NLF, 'nlist', _is_stencil_for)
+    E.prove('stencil.block_found', info['last_line'] > info['first_line'])
+    x_ = E.int('canary_x')
+    E.canary('stencil.canary', x_ == x_ + 1)
+    half = [(dx, dy, dz) for dz in (-1, 0, 1) for dy in (-1, 0, 1) for dx in (-1, 0, 1) if (dz, dy, dx) < (0, 0, 0)]
+    E.prove('stencil.spec_half_space', len(half) == 13 and all(((-a, -b, -c) in half) != ((a, b, c) in half) for a in (-1, 0, 1) for b in (-1, 0, 1) for c in (-1, 0, 1) if (a, b, c) != (0, 0, 0)))
+    for n in (1, 2, 3):
+        seen_pairs = {}
+        for x, y, z in itertools.product(range(n), repeat=3):
+            rec = _BinRecorder(n)
+            sl = _np.full(14 * 1, -1, dtype=object)
+            sl[0] = 100 * x + 10 * y + z
+            out = block(dict(x=x, y=y, z=z, numxbins=n, numybins=n, numzbins=n, xyzbins=rec, superlonglist=sl, c=1, end=False))
+            visited = sorted(set((i - x, j - y, k - z) for (i, j, k, l) in rec.log))
+            want = sorted(d for d in half if 0 <= x + d[0] < n and 0 <= y + d[1] < n and 0 <= z + d[2] < n)
+            E.prove('stencil.visits_half_space[n=%d][%d,%d,%d]' % (n, x, y, z), visited == want)
+            E.prove('stencil.count_and_order[n=%d][%d,%d,%d]' % (n, x, y, z), out['c'] == 1 + len(want)
+                    and sorted(int(v) for v in sl[1:out['c']]) == sorted(100 * (x + d[0]) + 10 * (y + d[1]) + (z + d[2]) for d in want) and int(sl[0]) == 100 * x + 10 * y + z)
+            for d in want:
+                a_, b_ = (x, y, z), (x + d[0], y + d[1], z + d[2])
+                key = tuple(sorted([a_, b_]))
+                seen_pairs[key] = seen_pairs.get(key, 0) + 1
+        allpairs = set()
+        for a_ in itertools.product(range(n), repeat=3):
+            for d in itertools.product((-1, 0, 1), repeat=3):
+                b_ = (a_[0] + d[0], a_[1] + d[1], a_[2] + d[2])
+                if d != (0, 0, 0) and all(0 <= q < n for q in b_):
+                    allpairs.add(tuple(sorted([a_, b_])))
+        E.prove('stencil.every_adjacent_pair_once[n=%d]' % n, set(seen_pairs) == allpairs and all(v == 1 for v in seen_pairs.values()))
+
+
+@group('nlist.pair_block', files=[NLF], functions=['nlist.nlist (block: candidate pairs of one bin)'],
+       clause='the candidate loop of one bin: for own atoms s_0..s_{c-1} followed by the atoms of the visited neighbouring bins, the separation is requested from dmag2_c for exactly the '
+              'pairs (s_i, l_j) with j > i in the concatenated list -- each pair of own atoms once, each (own, neighbouring-bin) pair once -- with the positions of those two atoms, '
+              'and a pair is recorded only if that squared separation is below cutoff^2 and the ids differ', replay=_replay_nlist, timeout_ms=20000)
+def pair_block(E, L):
+    block, info = _extract(L, NLF, 'nlist', _is_pair_for)
+    E.prove('pairs.block_found', info['last_line'] > info['first_line'])
+    mod = L.load(NLF)
+    natoms = 5
+    posv = E.reals('pos', (natoms, 3))
+    E.canary('pairs.canary', posv[0, 0] == posv[1, 0])
+    for shortlist, rest in (([3, 0], [4, 1]), ([2], []), ([1, 4, 0], [2])):
+        longlist = shortlist + rest
+        calls = []
+        d2 = {}
+
+        def dmag2_stub(upos, vpos, vects, a, b, c, calls=calls, d2=d2):
+            calls.append((snp.asarray(upos).copy(), snp.asarray(vpos).copy()))
+            out = snp.zeros(len(upos), dtype=object)
+            for w in range(len(upos)):
+                out[w] = E.real('d2_%d_%d' % (len(calls), w))
+                E.assume(out[w] >= 0)
+            d2[len(calls)] = out
+            return out
+        real = mod.dmag2_c
+        mod.dmag2_c = dmag2_stub
+        cutoff2 = E.real('cutoff2')
+        E.assume(cutoff2 > 0)
+        tab, ids = _table(E, 'p%d' % len(shortlist), natoms, 4, {r: 0 for r in range(natoms)})
+        tagp = 'pairs[%s|%s]' % (','.join(map(str, shortlist)), ','.join(map(str, rest)))
+        try:
+            out = block(dict(shortlist=_np.array(shortlist), longlist=_np.array(longlist), posv=posv, vects=_np.eye(3), pbc_a=True, pbc_b=True, pbc_c=True, cutoff2=cutoff2,
+                             neighbors=tab, maxneighbors=4, deltasize=2, natoms=natoms))
+        finally:
+            mod.dmag2_c = real
+        E.prove(tagp + '.one_request_per_own_atom', len(calls) == len(shortlist))
+        nt = out['neighbors']
+        for u, (upos, vpos) in enumerate(calls):
+            want_v = longlist[u + 1:]
+            E.prove(tagp + '.partners_of_own_atom[%d]' % u, upos.shape == (len(want_v), 3) and vpos.shape == (len(want_v), 3))
+            for w, v in enumerate(want_v):
+                for j in range(3):
+                    E.prove(tagp + '.positions[%d,%d,%d]' % (u, w, j), And(upos[w, j] == posv[shortlist[u], j], vpos[w, j] == posv[v, j]))
+        # recorded <=> separation below the cutoff (ids all distinct here), on the current path
+        for u, s_u in enumerate(shortlist):
+            for w, v in enumerate(longlist[u + 1:]):
+                listed = Or(*[nt[s_u, j] == v for j in range(1, int(nt[s_u, 0]) + 1)]) if int(nt[s_u, 0]) else False
+                close = d2[u + 1][w] < cutoff2
+                E.prove(tagp + '.recorded_iff_close[%d,%d]' % (s_u, v), And(Or(Not(close), listed), Or(close, Not(listed))) if not isinstance(listed, bool) else Not(close))
+    return None
+
+
+@group('nlist.binning_lemma', files=[NLF], functions=['spec lemma: atoms closer than the bin size lie in the same or adjacent bins'],
+       clause='with bins of size s starting at m, two coordinates closer than s fall into bins whose indices differ by at most one (per axis); with s = cutoff a pair closer than the '
+              'cutoff therefore lies in the same or adjacent bins -- the candidate set of the stencil and pair blocks', replay=_replay_nlist)
+def binning_lemma(E, L):
+    a, b, m, s = E.real('a'), E.real('b'), E.real('m'), E.real('s')
+    E.assume(s > 0)
+    E.assume(a - b < s)
+    E.assume(b - a < s)
+    E.canary('binning.canary', a == b)
+    ia, ib = snp.floor((a - m) / s), snp.floor((b - m) / s)
+    E.prove('binning.adjacent', And(ia - ib <= 1, ib - ia <= 1))
+    # the kernel's bin size is the cutoff itself (static: the assignment `binsize = cutoff` is the only definition)
+    import os as _os
+    text = open(_os.path.join(REPO, NLF), encoding='utf-8').read()
+    defs = [l.strip() for l in text.split('\n') if l.strip().startswith('binsize =') or l.strip().startswith('binsize=')]
+    E.prove('binning.binsize_is_cutoff', defs == ['binsize = cutoff'])
